@@ -96,6 +96,20 @@ def deep_switch(prefix, kinds_a, kinds_b):
     return out
 
 
+def handshake_submits(prefix, firsts, seconds, opts=None):
+    """Request A is interrupted on the first connection; request B is submitted at every point of the
+    reconnect handshake (while dialling, inside the ConnectOption, while the CONNECT / the retransmission is being written)."""
+    out = []
+    i = 0
+    for a in firsts:
+        for o in ("cutBefore", "cutAfter"):
+            for b in seconds:
+                for at in ("dial:2", "connopt:3", "write:3", "write:4", "write:5"):
+                    out.append(rf.scenario("%s-%d" % (prefix, i), [a, b], ["conn", at], [{"k": 2, "o": o}], opts=opts))
+                    i += 1
+    return out
+
+
 KEPT = [[], [{"code": 5}, {}], [{}, {"code": 3}], [{}, {"silent": True}]]        # connack plans that never lose the session
 LOST = [[{}, {"sp": "false"}], [{}, {}, {"sp": "false"}], [{}, {"sp": "false"}, {"sp": "false"}]]
 
@@ -109,6 +123,7 @@ def scenarios_for(pid, tier, rng, comps):
         sc += single_faults("c01s", small("w_mixed", 2) if q else small("w_mixed", 2) + small("w_sub", 1))
         sc += sampled("c01r", rng, n, comps, ["w_pub", "w_sub", "w_mixed"], connacks=KEPT + LOST + [[]] * 4,
                       optgen=lambda r: {"deliverOnRel": r.random() < 0.5, "alwaysResub": r.random() < 0.2})
+        sc += handshake_submits("c01h", [PUB(1), SUB(("s", 1))], [PUB(1), PUB(2), SUB(("x", 1)), UNSUB("x")])
         sc += deep_switch("c01d", [PUB(0), PUB(1), PUB(2), SUB(("s", 1))], [PUB(1), PUB(2), SUB(("x", 1)), UNSUB("x")])
     elif pid == "C02":
         q2 = [w for w in comps["w_pub"] if any(r["q"] == 2 for r in w)]
@@ -120,6 +135,7 @@ def scenarios_for(pid, tier, rng, comps):
         sc += deep_switch("c02d", [PUB(0), PUB(2)], [PUB(2)])
     elif pid == "C03":
         sc += single_faults("c03s", [w for w in comps["w_pub"] if len(w) == 2] + ([] if q else small("w_mixed", 2)))
+        sc += handshake_submits("c03h", [PUB(1), PUB(2)], [PUB(0), PUB(1), PUB(2), SUB(("x", 1))])
         sc += sampled("c03r", rng, n, comps, ["w_pub", "w_mixed", "w_mixed"], connacks=KEPT + [[]] * 4 + (LOST if not q else []),
                       optgen=lambda r: {"deliverOnRel": r.random() < 0.3})
     elif pid == "C08":
@@ -127,13 +143,17 @@ def scenarios_for(pid, tier, rng, comps):
             sc += single_faults("c08s%d" % len(ca), small("w_sub", 2) if not q else [w for w in small("w_sub", 2) if len(w) == 2][::3],
                                 ks=range(2, 6), connacks=ca)
         sc += sampled("c08r", rng, n, comps, ["w_sub"], connacks=LOST + LOST + KEPT + [[]],
-                      optgen=lambda r: {"alwaysResub": r.random() < 0.3})
+                      optgen=lambda r: {"alwaysResub": r.random() < 0.3, "epilogueLoseSession": r.random() < 0.5})
+        # book-keeping of established subscriptions: the same single-fault core, followed by a broker restart
+        sc += single_faults("c08e", [w for w in small("w_sub", 2) if len(w) == 2][(1 if q else 0)::(3 if q else 1)], ks=range(2, 5),
+                            opts={"epilogueLoseSession": True})
     elif pid == "C12":
         sc += single_faults("c12s", small("w_pub", 2))
         comps3 = dict(comps)
         sc += sampled("c12r", rng, n, comps3, ["w_pub", "w_mixed"], connacks=KEPT + [[]] * 4,
                       optgen=lambda r: {"deliverOnRel": r.random() < 0.5})
         sc += deep_switch("c12d", [PUB(1), PUB(2)], [PUB(1), PUB(2)])
+        sc += handshake_submits("c12h", [PUB(1), PUB(2)], [PUB(0), PUB(2)])
     elif pid == "C18":
         drops = comps["f_drops"]
         base = [[PUB(1)], [PUB(2)], [SUB(("x", 1))], [UNSUB("x")], [PUB(1), PUB(2)], [SUB(("x", 1)), PUB(1)], [PUB(2), UNSUB("y")]]
@@ -145,6 +165,15 @@ def scenarios_for(pid, tier, rng, comps):
                     i += 1
                     # drop on the connection where the request is being retransmitted
                     sc.append(rf.scenario("c18s-%d" % i, w, ["conn"] * len(w), [{"k": 2, "o": "cutAfter"}, {"k": k + 2, "o": o}], opts={"respTimeoutMs": 40, "connTimeoutMs": 80}))
+                    i += 1
+        # the acknowledgement swallowed on several connections in a row (first transmission, 1st, 2nd, 3rd retransmission)
+        chains = [([PUB(1)], "PUBLISH"), ([PUB(2)], "PUBLISH"), ([PUB(2)], "PUBREL"), ([SUB(("x", 1))], "SUBSCRIBE"), ([UNSUB("x")], "UNSUBSCRIBE"),
+                  ([PUB(1), PUB(2)], "PUBLISH"), ([SUB(("x", 1)), PUB(1)], "SUBSCRIBE")]
+        for w, pk in chains:
+            for ln in (3, 4):
+                for o in ("dropAck", "dropReq"):
+                    sc.append(rf.scenario("c18c-%d" % i, w, ["conn"] * len(w), [{"p": pk, "n": m + 1, "o": o} for m in range(ln)],
+                                          opts={"respTimeoutMs": 40, "connTimeoutMs": 80}))
                     i += 1
         for j in range(n // 2):
             wl = rng.choice(comps[rng.choice(["w_pub", "w_mixed", "w_sub"])])
